@@ -537,7 +537,8 @@ func evictPods(
 		podMetric := nodeInfo.podMetrics[types.NamespacedName{Namespace: pod.Namespace, Name: pod.Name}]
 		if podMetric == nil {
 			klog.V(4).InfoS("Failed to find PodMetric", "pod", klog.KObj(pod), "node", klog.KObj(nodeInfo.node), "nodePool", nodePoolName)
-			continue
+			// no reported usage to subtract, but the pod still leaves the node: keep the pod count right
+			podMetric = &slov1alpha1.ResourceMap{}
 		}
 		for resourceName, availableUsage := range totalAvailableUsages {
 			var quantity resource.Quantity
